@@ -2,5 +2,9 @@ import Driver.Loop
 import Driver.C11
 import Driver.C04
 import Driver.C05
+import Driver.C01
+import Driver.C02
 
-def main : IO Unit := Driver.runMain [Driver.C11.handle, Driver.C04.handle, Driver.C05.handle]
+def main : IO Unit :=
+  Driver.runMain [Driver.C11.handle, Driver.C04.handle, Driver.C05.handle, Driver.C01.handle,
+    Driver.C02.handle]
